@@ -37,6 +37,10 @@ class Skip(Exception):
     pass
 
 
+class Shadowed(Exception):
+    """an attribute path did not yield an expression object: the member name is taken by an attribute of the path object itself"""
+
+
 class Consumed(Exception):
     """Python itself evaluated an operator while the tree was being spelled (e.g. 's' % this.a: str.__mod__ takes the placeholder
     for a mapping and returns 's'): no expression object for that sub-tree exists, at any depth"""
@@ -100,11 +104,15 @@ def build(t, P):
         for i, f in enumerate(t[1:]):
             # alternate attribute / item spelling: this.a  this["b"]  this._.c
             e = e[f] if (f == "b") else getattr(e, f)
+            if not callable(e) or not hasattr(e, "__getattr__"):
+                raise Shadowed("this.%s" % ".".join(map(str, t[1:i + 2])))
         return e, True
     if k == "obj":
         e = P["obj_"]
-        for f in t[1:]:
+        for i, f in enumerate(t[1:]):
             e = getattr(e, f)
+            if not callable(e) or not hasattr(e, "__getattr__"):
+                raise Shadowed("obj_.%s" % ".".join(map(str, t[1:i + 2])))
         return e, True
     if k == "list":
         e = P["list_"]
@@ -230,9 +238,12 @@ def mkenv(ctxd):
     for k in ("c",):
         if k in d:
             outer[k] = d[k]
-    for k in ("a", "b", "items", "s"):
+    for k in ("a", "b", "items", "s") + ODD_NAMES:
         if k in d:
             inner[k] = d[k]
+    for k in ODD_NAMES:
+        if k in d:
+            outer[k] = d[k] + 100
     inner["_"] = outer
     env = {"this": inner, "obj": d.get("obj"), "list": d.get("list")}
     return env, inner, d
@@ -250,6 +261,11 @@ def check_tree(ctx, t, ctxd, P, mode_lib=False, report=True):
         except Consumed:
             ctx.count("python_consumed_operator")
             return []
+        except Shadowed as sh:
+            bad = [("path-member-shadowed-by-attribute", "%s does not give an expression object: the member name is taken by an attribute of the path object" % sh)]
+            if report:
+                ctx.violation(bad[0][0], bad[0][1], {"tree": t, "ctx": ctxd})
+            return bad
         except Exception:
             # Python itself consumed an operator while the tree was being spelled
             # (e.g. -('s' % this.a)): no expression object exists
@@ -370,6 +386,8 @@ def minimal(t, ctxd, P, which):
 
 # ---------------------------------------------------------------- generation
 INTS = [-2, -1, 0, 1, 2, 3]
+# member names that could collide with attributes of the expression objects themselves (a path resolves members through __getattr__)
+ODD_NAMES = ("key", "field", "name", "parent", "index", "func", "op", "lhs", "rhs", "path", "args", "operand")
 PLEAVES = [["this", "a"], ["this", "b"], ["this", "_", "c"]]
 KLEAVES = [["lit", i] for i in INTS] + [["lit", True], ["lit", False], ["lit", "s"], ["lit", tag(b"s")]]
 LEAVES = PLEAVES + KLEAVES
@@ -514,6 +532,20 @@ def run(ctx):
         fam.append((["bin", "%", ["lit", "%s!"], ["this", "s"]], "s"))
         fam.append((["bin", "*", ["this", "s"], ["this", "a"]], "s"))
         fam.append((["bin", "==", ["this", "s"], ["lit", "ab"]], "s"))
+        # members whose names could collide with attributes of the expression objects, by attribute path at every position
+        for nm in ODD_NAMES:
+            fam.append((["this", nm], "names"))
+            fam.append((["this", "_", nm], "names"))
+            fam.append((["obj", nm], "names"))
+            fam.append((["bin", "+", ["this", nm], ["lit", 1]], "names"))
+            fam.append((["bin", "-", ["lit", 50], ["bin", "*", ["this", "_", nm], ["this", nm]]], "names"))
+            fam.append((["un", "-", ["this", nm]], "names"))
+        # float constants (negative zero, negative and positive values) on either side of every operator
+        for op in BINOPS:
+            for fl in (-0.0, -2.5, 0.5):
+                fam.append((["bin", op, ["lit", tag(fl)], A], "floats"))
+                fam.append((["bin", op, A, ["lit", tag(fl)]], "floats"))
+                fam.append((["bin", op, ["lit", tag(fl)], ["bin", "+", A, ["this", "b"]]], "floats"))
         # sequence-valued operands, where + is not commutative: a str / bytes / list constant on either side of a sequence-valued
         # path or sub-expression (the reflected operators must keep the operand order)
         S = ["this", "s"]
@@ -549,6 +581,10 @@ def run(ctx):
                 cs = [{"obj": o, "list": l, "a": 1, "b": 1, "c": 1} for o in (0, 2) for l in ([1], [3, -1, 2], [0, 0, 5, 7])]
             elif kind == "listdeep":
                 cs = [{"obj": 0, "list": [tag({"x": a, "y": [a, b, 7]}), [b, a], tag({"x": b, "y": [1, 2, a]})], "a": 1, "b": 1, "c": 1} for a in (-3, 0, 2) for b in (1, 5)]
+            elif kind == "names":
+                cs = [dict({nm: base + j for j, nm in enumerate(ODD_NAMES)}, obj=tag({nm: 2 * base + j for j, nm in enumerate(ODD_NAMES)}), a=1, b=1, c=1) for base in (1, 7, -20)]
+            elif kind == "floats":
+                cs = [{"a": a, "b": b, "c": 0} for a in (-2, -1, 0, 1, 2, 3) for b in (0, 1)]
             elif kind == "mix":
                 cs = [{"items": it, "a": a, "b": b, "c": 3} for it in ([1], [1, 2, 3], [-2, 5], [3, 1, 2]) for a in (-7, 0, 1, 5) for b in (2, -3)]
             elif kind == "absa":
